@@ -93,6 +93,19 @@ fn exit_code(line: &str) -> Option<i32> {
     inner.parse().ok()
 }
 
+/// reason recorded in `RefDoc::unspecified` for a block with expectation / exit code lines before its `$` line: such lines
+/// are nobody's; the document is rejected or they are dropped, they never become part of the command's test
+pub const ORPHANS: &str = "non-comment line before the `$` line";
+
+/// does the block have non-comment lines before its first `$` line?
+pub fn has_orphans(body: &[String]) -> bool {
+    let first_dollar = body.iter().position(|l| l.starts_with("$ "));
+    match first_dollar {
+        Some(j) => body[..j].iter().any(|l| !l.starts_with('#')),
+        None => false,
+    }
+}
+
 pub fn parse_body(body: &[String]) -> Body {
     let mut k = 0;
     while k < body.len() && body[k].starts_with('#') {
@@ -106,9 +119,14 @@ pub fn parse_body(body: &[String]) -> Body {
     if body[k..].iter().all(|l| exit_code(l).is_some()) && body[k..].len() == 1 {
         return Body::NoTest;
     }
-    let Some(first) = body[k].strip_prefix("$ ") else {
-        return Body::Unspecified("non-comment line before the `$` line");
-    };
+    // lines before the first `$` line belong to no test (see ORPHANS)
+    while k < body.len() && !body[k].starts_with("$ ") {
+        k += 1;
+    }
+    if k == body.len() {
+        return Body::Unspecified("body lines, but no `$` line");
+    }
+    let first = &body[k][2..];
     let dollar_index = k;
     let mut cmd = vec![first.to_string()];
     k += 1;
@@ -234,6 +252,9 @@ pub fn tokenize(text: &str) -> RefDoc {
                 doc.blocks.push((lang.clone(), cfg.clone(), matches!(parsed, Body::Test { .. })));
                 if close.is_none() {
                     doc.unterminated = Some(Unterminated::ScrutFence { body: parsed.clone() });
+                }
+                if has_orphans(&body) && doc.unspecified.is_none() {
+                    doc.unspecified = Some(ORPHANS);
                 }
                 match &parsed {
                     Body::Test { cmd, expectations, exit_code, dollar_index } => {
